@@ -84,6 +84,12 @@ class CheckC03(core.Check):
                 parsed = parse_name_simple(name)
                 for k in range(parsed.nmsgs):
                     descs.append((name, k, rnd.getrandbits(24), 0))
+            # every cipher (and both DH functions) on patterns whose first message is all cleartext
+            for ci in CIPHERS:
+                for p in ("NN", "XX", "IX"):
+                    name = make_name(p, (), rnd.choice(DHS), ci, rnd.choice(HASHES))
+                    for k in range(parse_name_simple(name).nmsgs):
+                        descs.append((name, k, rnd.getrandbits(24), 0))
             # other primitives on a sample
             for p, ps in rnd.sample(variants, 12):
                 name = make_name(p, ps, rnd.choice(DHS), rnd.choice(CIPHERS), rnd.choice(HASHES))
